@@ -121,6 +121,9 @@ func honestSpec(r *rand.Rand, t int, nonce uint64) spec {
 	if r.Intn(6) == 0 {
 		s.Amount = emit.BigUpTo(r, 255)
 	}
+	if r.Intn(5) == 0 {
+		s.Compass = "" // a deployment without a compass id on record (none is recorded in the harness environment)
+	}
 	return s
 }
 
@@ -201,6 +204,8 @@ func mutateField(r *rand.Rand, s *spec, name string) bool {
 			s.Amount = big.NewInt(int64(r.Intn(10)))
 		} else if r.Intn(5) == 0 {
 			s.Amount = nil
+		} else if x, ok := amountAlias(r, s.Amount, aliasKinds[r.Intn(len(aliasKinds))]); ok && r.Intn(2) == 0 {
+			s.Amount = x
 		} else {
 			s.Amount = new(big.Int).Add(s.Amount, big.NewInt(int64(1+r.Intn(3))))
 		}
@@ -649,11 +654,79 @@ func TestCorr(t *testing.T) {
 			}
 		}
 	}
+	// amount aliases: every alias kind for both amount-carrying types, each run
+	for _, tt := range []int{tDeposit, tSale} {
+		for _, kind := range aliasKinds {
+			reps := 1
+			if search {
+				reps = 3
+			}
+			for k := 0; k < reps; k++ {
+				a := honestSpec(r, tt, 1)
+				a.Amount = aliasBase(r)
+				if kind == "nil-vs-0" {
+					a.Amount = nil
+				}
+				b := a.clone()
+				x, ok := amountAlias(r, a.Amount, kind)
+				if !ok {
+					continue
+				}
+				b.Amount = x
+				doPair(build(a), build(b), "amount-alias:"+kind, map[string]any{"kind": "pair", "a": toJ(a), "b": toJ(b)})
+			}
+		}
+	}
+	// cross-type mirrors: every (victim type, target type) for which a mirror exists, each run
+	for vt := 0; vt <= tLegacy; vt++ {
+		for to := 0; to <= tLegacy; to++ {
+			for k := 0; k < 6; k++ {
+				var a spec
+				if vt == tLegacy {
+					a = honestSpec(r, tBatch, 1)
+					a.T = tLegacy
+				} else {
+					a = mirrorVictim(r, vt, 1)
+				}
+				x, ok := mirror(r, a, to)
+				if !ok {
+					continue
+				}
+				doPair(build(a), build(x), fmt.Sprintf("mirror:%d->%d", vt, to), map[string]any{"kind": "pair", "a": toJ(a), "b": toJ(x)})
+				if !search {
+					break
+				}
+			}
+		}
+	}
 	nEff := run.N * 25 / 100
 	for i := 0; i < nEff; i++ {
 		tt := r.Intn(3)
 		var a, b spec
-		switch r.Intn(8) {
+		switch r.Intn(11) {
+		case 8, 9: // amounts a lossy renderer would identify
+			if tt == tBatch {
+				tt = tDeposit
+			}
+			a = honestSpec(r, tt, 1)
+			if r.Intn(2) == 0 {
+				a.Amount = aliasBase(r)
+			}
+			kind := aliasKinds[r.Intn(len(aliasKinds))]
+			x, ok := amountAlias(r, a.Amount, kind)
+			if !ok {
+				continue
+			}
+			b = a.clone()
+			b.Amount = x
+			doPair(build(a), build(b), "amount-alias:"+kind, map[string]any{"kind": "pair", "a": toJ(a), "b": toJ(b)})
+		case 10: // a claim of another type mirroring the path elements
+			a = mirrorVictim(r, tt, 1)
+			x, ok := mirror(r, a, r.Intn(tLegacy+1))
+			if !ok {
+				continue
+			}
+			doPair(build(a), build(x), "mirror", map[string]any{"kind": "pair", "a": toJ(a), "b": toJ(x)})
 		case 6, 7:
 			a = honestSpec(r, tt, 1)
 			var fn string
@@ -696,6 +769,43 @@ func TestCorr(t *testing.T) {
 	if nHist < 30 {
 		nHist = 30
 	}
+	// every run: the first submitter's body differs from the honest one only in a way a lossy path renderer would not see
+	histOf := func(name string, victim, attacker spec) {
+		ops := attackHistory(victim, attacker, 0)
+		js := make([]jspec, len(ops))
+		for i := range ops {
+			js[i] = toJ(ops[i])
+		}
+		doHist(name, ops, map[string]any{"kind": "history", "ops": js})
+	}
+	for _, tt := range []int{tDeposit, tSale} {
+		for _, kind := range []string{"+2^64", "+2^128", "low64", "neg"} {
+			victim := honestSpec(r, tt, 1)
+			if kind == "low64" || r.Intn(2) == 0 {
+				victim.Amount = new(big.Int).Add(aliasBase(r), new(big.Int).Lsh(big.NewInt(1), 64))
+			}
+			x, ok := amountAlias(r, victim.Amount, kind)
+			if !ok {
+				continue
+			}
+			attacker := victim.clone()
+			attacker.Orch, attacker.Amount = 4, x
+			histOf("amount-alias:"+kind, victim, attacker)
+		}
+	}
+	for vt := 0; vt < 3; vt++ {
+		for to := 0; to < 3; to++ {
+			for k := 0; k < 6; k++ {
+				victim := mirrorVictim(r, vt, 1)
+				x, ok := mirror(r, victim, to)
+				if !ok || build(x).ValidateBasic() != nil || build(victim).ValidateBasic() != nil {
+					continue
+				}
+				histOf(fmt.Sprintf("mirror:%d->%d", vt, to), victim, x)
+				break
+			}
+		}
+	}
 	for i := 0; i < nHist; i++ {
 		tt := r.Intn(3)
 		victim := honestSpec(r, tt, 1)
@@ -706,7 +816,34 @@ func TestCorr(t *testing.T) {
 		attacker.Orch = 4
 		name := "agree"
 		pos := r.Intn(6)
-		switch r.Intn(11) {
+		switch r.Intn(15) {
+		case 11, 12: // the first submitter reports an amount a lossy renderer would identify with the honest one
+			if tt == tBatch {
+				tt = tDeposit
+			}
+			victim = honestSpec(r, tt, 1)
+			if r.Intn(2) == 0 {
+				victim.Amount = aliasBase(r)
+			}
+			kind := aliasKinds[r.Intn(len(aliasKinds)-0)]
+			if x, ok := amountAlias(r, victim.Amount, kind); ok {
+				attacker = victim.clone()
+				attacker.Orch = 4
+				attacker.Amount = x
+				name = "amount-alias:" + kind
+				pos = 0
+			}
+		case 13, 14: // the first submitter reports a claim of another type that mirrors the honest claim's path elements
+			victim = mirrorVictim(r, tt, 1)
+			attacker = victim.clone()
+			attacker.Orch = 4
+			for _, to := range r.Perm(3) {
+				if x, ok := mirror(r, victim, to); ok {
+					attacker, name = x, fmt.Sprintf("mirror:%d->%d", victim.T, to)
+					pos = 0
+					break
+				}
+			}
 		case 7, 8, 9: // near-miss spelling of one text field, submitted first
 			var fn string
 			attacker, fn = nearMissSpec(r, victim)
